@@ -275,6 +275,91 @@ def replay_plan(sql):
         return {'input': sql, 'dialect': 'mindsdb', 'fires': False, 'observed': f'{type(e).__name__}: {e}'[:120]}
 
 
+def fresh_planner(rep):
+    """plan_query plans each query with a planner allocated in the call: per-planner state (cte_results, step stacks, query context) can then not
+    carry Results of an earlier plan into this one"""
+    fn = 'mindsdb_sql.planner:plan_query'
+
+    def make_args(ex):
+        made = []
+
+        def ctor(ex_, a, k, node=None):
+            pl = SymObj(None, ex_.fresh_name('planner'), prov='fresh')
+            pl.known_not_none = True
+            res = SymObj(None, ex_.fresh_name('plan'), prov='fresh')
+
+            def from_query(ex2, a2, k2):
+                ex2.log.append(Event('from_query', planner=pl, args=list(a2), kwargs=dict(k2)))
+                return res
+            pl.fields['from_query'] = Stub(from_query, 'from_query')
+            made.append((pl, list(a), dict(k), res))
+            return pl
+        ex.stubs[('mindsdb_sql.planner.query_planner', 'QueryPlanner')] = ctor
+        q = SymObj(None, 'query', prov='param')
+        q.known_not_none = True
+        cat = SymObj(None, 'integrations', prov='param')
+        ex.path_state.update(made=made, q=q)
+        return [q], {'integrations': cat, 'default_namespace': pysym.mk_str('default_namespace')}
+
+    def post(ex, o):
+        if o.kind != 'return':
+            return f'raises {getattr(o.value, "__name__", o.value)}'
+        made = o.state['made']
+        calls = [e for e in o.log if e.kind == 'from_query']
+        if len(made) != 1 or len(calls) != 1 or calls[0].planner is not made[0][0]:
+            return f'{len(made)} planner(s) constructed, {len(calls)} from_query call(s): the plan is not produced by a planner created for this call'
+        q = o.state['q']
+        if not ((made[0][1][:1] == [q]) or calls[0].args[:1] == [q] or calls[0].kwargs.get('query') is q):
+            return 'the query does not reach the planner'
+        if o.value is not made[0][3]:
+            return 'the plan returned is not the one produced by from_query'
+        for (obj, attr, old, new, kind) in o.writes:
+            if ex.prov(obj) in ('global',) or (isinstance(obj, SymObj) and obj.prov not in ('fresh',)):
+                return f'writes shared state: {obj!r}.{attr}'
+        return None
+    v = pysym.verify('mindsdb_sql.planner', 'plan_query', make_args, post)
+    _emit(rep, 'C09.fresh.plan_query', v, fn, 'ensures the plan is produced by exactly one QueryPlanner allocated in this call, for this query; modifies nothing shared', replay=replay_history)
+
+
+HISTORY = [
+    ['WITH recent AS (SELECT * FROM int1.tbl1 WHERE a > 1) SELECT * FROM recent r JOIN int2.tbl2 t ON r.id = t.id', 'SELECT * FROM recent WHERE id > 5', 'SELECT * FROM recent r JOIN int2.tbl2 t ON r.id = t.id'],
+    ['SELECT * FROM int1.tbl1 AS t JOIN mindsdb.pred AS m USING partition_size = 10', 'SELECT * FROM int1.tbl1 AS t JOIN int2.tbl2 AS t2 ON t.id = t2.id'],
+    ['SELECT * FROM int1.tbl1 t1 JOIN int2.tbl2 t2 ON t1.id = t2.id WHERE t1.a = 1 LIMIT 3', 'SELECT * FROM int1.tbl1 t1 JOIN int2.tbl2 t2 ON t1.id = t2.id'],
+]
+
+
+def history_problems():
+    """plans every query of each sequence through plan_query with one and the same catalog object; each plan must be well-formed and equal to the plan the
+    query gets when it is the first and only query of a fresh catalog"""
+    import copy as _copy
+    from mindsdb_sql import parse_sql
+    from mindsdb_sql.planner import plan_query
+    out = []
+    for seq in HISTORY:
+        kw = _copy.deepcopy(plans.catalogs()['names'])
+        for sql in seq:
+            try:
+                p = plan_query(parse_sql(sql), **kw)
+                alone = plan_query(parse_sql(sql), **_copy.deepcopy(plans.catalogs()['names']))
+            except Exception as e:
+                continue
+            for kind, msg in check_plan(p):
+                out.append((sql, f'after {seq[:seq.index(sql)]}: {msg}'))
+            if [repr(s_) for s_ in p.steps] != [repr(s_) for s_ in alone.steps]:
+                out.append((sql, f'after {seq[:seq.index(sql)]} the plan differs from the plan of the same query planned alone: {[repr(s_)[:60] for s_ in p.steps][:3]}'))
+    return out
+
+
+def replay_history():
+    try:
+        probs = history_problems()
+    except Exception as e:
+        return {'input': 'plan_query sequences', 'dialect': 'mindsdb', 'fires': False, 'observed': f'{type(e).__name__}: {e}'[:120]}
+    if probs:
+        return {'input': probs[0][0], 'dialect': 'mindsdb', 'fires': True, 'observed': probs[0][1][:300], 'expected': 'the plan of the query planned alone'}
+    return {'input': 'plan_query sequences', 'dialect': 'mindsdb', 'fires': False, 'observed': 'every plan equals the plan of the query planned alone'}
+
+
 def discipline(rep):
     fn = '(whole repository: mindsdb_sql/**)'
     sites = frames.calls_of('Result', mods())
@@ -349,6 +434,12 @@ def bounded(rep, tier):
             continue
         for kind, msg in check_plan(plan):
             fails.setdefault(f'C09.bounded.{kind}', (sc.get('sql') or sc['source'], msg))
+    try:
+        for sql, msg in history_problems():
+            fails.setdefault('C09.bounded.history', (sql, msg))
+        n += sum(len(x) for x in HISTORY)
+    except Exception as e:
+        fails.setdefault('C09.bounded.history', ('plan_query sequences', f'{type(e).__name__}: {e}'[:160]))
     rep.bounded_evals = n
     rep.census['bounded.exceptions'] = exc
     rep.bounded_rule = ('generated joins (5 kinds x 9 WHERE shapes x 7 tails), 3-table joins, sub-selects, unions, CTE, DML, model joins incl. partition_size '
@@ -365,6 +456,7 @@ def check(rep, tier):
     rep.trust('pysym executor', 'frames census')
     contracts(rep)
     placement(rep)
+    fresh_planner(rep)
     discipline(rep)
     bounded(rep, tier)
     rep.notes.append('Numbering discipline proved; planner exception-freedom and container placement only monitored (bounded).')
